@@ -17,7 +17,8 @@ func init() {
 			"(R12.2) without -seed: the salts are the package's GarbleActionID and addGarbleToHash(struct identity hash), and addGarbleToHash covers the garble binary id, GOGARBLE, -literals, -tiny and the control-flow setting; " +
 			"(R12.3) the hash input is salt, seed bytes, name, into a freshly reset hasher; " +
 			"(R12.4) the runtime magic number and entry-offset key take the same two-way split; " +
-			"(R12.5) seedFlag.Set rejects seeds shorter than 8 bytes before storing anything. " +
+			"(R12.5) seedFlag.Set rejects seeds shorter than 8 bytes before storing anything; " +
+			"(R12.6) every byte of the decoded seed is stored and every stored byte is hashed: no slicing between the base64 decoder and the hasher (two seeds that differ anywhere must give different names). " +
 			"Does not decide that two names actually differ when an input differs (a property of SHA-256 and of cmd/go's action IDs).",
 		perConfig: checkC12,
 	})
@@ -288,4 +289,109 @@ func checkC12(c *Ctx) {
 	}
 	c.Check(okLen, "R12.5", "(*seedFlag).Set length check", w.Pos(set.Pos()), "len(decoded) < 8 returns an error before the seed is stored",
 		"a decoded seed shorter than 8 bytes is no longer rejected: binary.BigEndian.Uint64(seed) in transformCompile would panic, or a weak seed be used")
+
+	// R12.6: no truncation of the seed on its way into the names
+	c.Rule("R12.6", "the whole decoded seed is stored and the whole stored seed is hashed", 3)
+	// leavesNoSlice follows phis and reports a truncating slice expression on the way
+	var truncated func(v ssa.Value, seen map[ssa.Value]bool) string
+	truncated = func(v ssa.Value, seen map[ssa.Value]bool) string {
+		if seen[v] {
+			return ""
+		}
+		seen[v] = true
+		switch x := v.(type) {
+		case *ssa.Phi:
+			for _, e := range x.Edges {
+				if why := truncated(e, seen); why != "" {
+					return why
+				}
+			}
+		case *ssa.Slice:
+			if _, fresh := x.X.(*ssa.Alloc); fresh {
+				return "" // make([]byte, constant): a new array sliced whole
+			}
+			if x.Low != nil || x.High != nil || x.Max != nil {
+				return "sliced at " + w.Pos(x.Pos())
+			}
+			return truncated(x.X, seen)
+		case *ssa.UnOp:
+			if x.Op == token.MUL {
+				// a load: look at what is stored there within the function
+				if al, ok := x.X.(*ssa.Alloc); ok {
+					if refs := al.Referrers(); refs != nil {
+						for _, r := range *refs {
+							if st, ok := r.(*ssa.Store); ok && st.Addr == ssa.Value(al) {
+								if why := truncated(st.Val, seen); why != "" {
+									return why
+								}
+							}
+						}
+					}
+				}
+			}
+		}
+		return ""
+	}
+	nStores := 0
+	for _, b := range set.Blocks {
+		for _, in := range b.Instrs {
+			st, ok := in.(*ssa.Store)
+			if !ok {
+				continue
+			}
+			fa, ok := st.Addr.(*ssa.FieldAddr)
+			if !ok || fieldName(fa.X.Type(), fa.Field) != "bytes" {
+				continue
+			}
+			nStores++
+			if _, isMake := st.Val.(*ssa.MakeSlice); isMake {
+				continue // -seed=random: a fresh buffer, filled in place
+			}
+			if sl, ok := st.Val.(*ssa.Slice); ok {
+				if _, fresh := sl.X.(*ssa.Alloc); fresh {
+					continue // the same, with a constant length
+				}
+			}
+			why := truncated(st.Val, map[ssa.Value]bool{})
+			fromDecoder := w.BackSlice(st.Val, sliceOpt{}).HasCall("(*encoding/base64.Encoding).DecodeString")
+			c.Check(why == "" && fromDecoder, "R12.6", "(*seedFlag).Set stores the decoded seed", w.Pos(st.Pos()), "f.bytes is the decoder's result, unsliced",
+				"the seed stored for hashing is not the whole decoded -seed value ("+why+"): seeds that differ only in the dropped bytes give identical names, binaries and maps")
+		}
+	}
+	if nStores == 0 {
+		c.Undecided("R12.6", "(*seedFlag).Set stores the decoded seed", w.Pos(set.Pos()), "no store to seedFlag.bytes found")
+	}
+	// the two hashing sites write flagSeed.bytes as loaded
+	for _, name := range []string{"hashWithCustomSalt", "entryOffKey"} {
+		fn := w.Fn(name)
+		if fn == nil {
+			c.Undecided("R12.6", name+" hashes the whole seed", "", "function not found")
+			continue
+		}
+		found, why := false, ""
+		for _, cs := range w.CallsTo("(io.Writer).Write") {
+			if cs.Fn != fn {
+				continue
+			}
+			arg := cs.Args()[len(cs.Args())-1]
+			sl := w.BackSlice(arg, sliceOpt{})
+			if !sl.Fields["flagSeed.bytes"] && !sl.Fields["seedFlag.bytes"] {
+				continue
+			}
+			found = true
+			if t := truncated(arg, map[ssa.Value]bool{}); t != "" {
+				why = t
+			}
+		}
+		switch {
+		case !found && name == "entryOffKey":
+			// the key may take the seed through another route; R12.4 decides that
+			c.OK("R12.6", name+" hashes the whole seed", w.Pos(fn.Pos()), "no direct write of the seed here (see R12.4)")
+		case !found:
+			c.Bad("R12.6", name+" hashes the whole seed", w.Pos(fn.Pos()), "the seed bytes are no longer written into the hash")
+		default:
+			c.Check(why == "", "R12.6", name+" hashes the whole seed", w.Pos(fn.Pos()), "hasher.Write(flagSeed.bytes), unsliced",
+				"only part of the seed is hashed ("+why+"): seeds that differ in the other bytes give identical names")
+		}
+	}
 }
